@@ -3,6 +3,7 @@ import Pymc.Proofs.ServerAnswersCall
 import Pymc.Proofs.PooledCallExamples
 import Pymc.Proofs.HashCallExamples
 import Pymc.Proofs.HashCallManyExamples
+import Pymc.Proofs.HashCallSetExamples
 /-!
 # C01 — no reply is ever read by the wrong call
 
@@ -43,7 +44,8 @@ The argument is the invariant *at a call boundary an open socket has nothing unr
    contact of the failover code with a server is a real `Client.call` on the client object registered for that server.
    The invariant becomes *every client object registered in `self.clients` with an open socket has nothing unread in its
    pipe* (`C01_hash_sequence_clean`, `C01_hash_own_bytes_only`, and the `…_faults` variants); with `get_many` /
-   `gets_many` — several servers contacted by one public call — in `C01_hash_many_*` (model `Pymc/Model/HashCallMany.lean`).
+   `gets_many`, `set_many` and `delete_many` — several servers contacted by one public call, or one server several
+   times — in `C01_hash_many_*` (model `Pymc/Model/HashCallMany.lean`).
 
 No bound on lengths, number of keys or chunking anywhere.
 -/
@@ -1010,16 +1012,23 @@ example :
 
 end hash
 
-/-! ## 11. `HashClient`: `get_many` / `gets_many` mixed with the single-key operations
+/-! ## 11. `HashClient`: `get_many` / `gets_many`, `set_many`, `delete_many` mixed with the single-key operations
 
-Model: `Pymc/Model/HashCallMany.lean`.  A public call (`MCall`) is a single-key operation as in section 10 or a
-`get_many` / `gets_many`: every key with its routing key, and one script per server (`scripts s` = what the connection
-of server `s` does during the call).  `runM` runs a history; the observation of a call lists its batches in order, each
-with the inner `Client.call (.getMany batch)` made on the client object registered for that server (`ob.steps` = the
-inner calls of the public call, all tagged with its number).  The framing hypothesis for `get_many`
-(`MOp.WellFramed`) is about the scripts alone: every server's script delivers exactly one fetch reply — which keys
-are sent to which server is decided by the failover code at run time, and a batch of legal keys is owed one fetch
-reply whatever it holds (`HashCall.owed_batchCall`). -/
+Model: `Pymc/Model/HashCallMany.lean`.  A public call (`MCall`) is a single-key operation as in section 10, a
+`get_many` / `gets_many` (every key with its routing key, one script per server: `scripts s` = what the connection
+of server `s` does during the call), a `set_many` (every item with its routing key, the `expire` / `noreply` / `flags`
+handed through, and `scripts s b` = what the connection of server `s` does when the batch `b` is sent to it — with
+`noreply=False` the server owes one line per item of the batch it receives, so its reply is a function of the batch), or a
+`delete_many` (in the code a loop of `_run_cmd("delete", …)`: every key with its routing key and its own script, since
+one server may be contacted several times; all inner calls carry the tag of the public call).  `runM` runs a history;
+the observation of a call lists its batches in order, each with the inner `Client.call` (`.getMany batch` /
+`.setMany batch …` / `.delete key …`) made on the client object registered for that server (`ob.steps` = the inner
+calls of the public call, all tagged with its number).  The framing hypothesis (`MOp.WellFramed`) is about the scripts:
+for `get_many` every server's script delivers exactly one fetch reply — which keys are sent to which server is decided by
+the failover code at run time, and a batch of legal keys is owed one fetch reply whatever it holds
+(`HashCall.owed_batchCall`); for `set_many` the script of every server is well-framed for whatever batch it is sent; for
+`delete_many` the script of every key is well-framed for its `delete`.  The `ignore_exc` swallow inside `_set_many`
+(known finding `C13-setmany-ignoreexc`) is modelled as it is; it does not affect ownership of bytes. -/
 section hashmany
 open HashCall
 
@@ -1082,6 +1091,28 @@ example :
       ({ nodes := [1, 0], failed := [], dead := [], lastDeadCheck := 12 }, [(0, 2, true, 0), (1, 1, true, 0)]) :=
   ⟨HashCallExamples.manyCalls_wf, HashCallExamples.demo_many.1, HashCallExamples.demo_many.2.1, HashCallExamples.demo_many.2.2⟩
 
+/-- the seven-call history `HashCallExamples.setCalls` (`ignore_exc=False`) satisfies the hypothesis (a server that
+answers `STORED` once per item of the batch it receives, `DELETED` to every `delete`); its run shows a `set_many` split
+over two servers, the failing batch of server 0 ending the call before the batch of server 1 is sent, the keys of a
+batch that is skipped inside the retry window reported as failed, a `delete_many` ended by its first `delete`, eviction
+inside a `set_many`, both items rerouted into one batch (two reply lines consumed by one inner call), and a `delete_many`
+over two servers after the revival; every inner call consumes only `recv()` results of its own public call -/
+example :
+    (∀ mc ∈ HashCallExamples.setCalls, mc.op.WellFramed {}) ∧
+    HashCallExamples.manySummary (runM {} HashCallExamples.cfgStrict Failover.prefRoute (init [0, 1] 0) 0 HashCallExamples.setCalls) =
+      [(.value (.keys []), [(0, some 0, true), (1, some 1, true)]),
+       (.raised 0 (.sock 32), [(0, some 0, false)]),
+       (.value (.keys [.bytes [107]]), [(0, none, false), (1, some 1, true)]),
+       (.raised 0 (.sock 61), [(0, some 0, false)]),
+       (.raised 0 (.sock 61), [(0, some 0, false)]),
+       (.value (.keys []), [(1, some 1, true)]),
+       (.value (.bool true), [(0, some 2, true), (1, some 1, true)])] ∧
+    HashCallExamples.manyTags (runM {} HashCallExamples.cfgStrict Failover.prefRoute (init [0, 1] 0) 0 HashCallExamples.setCalls) =
+      [[[0], [0]], [[]], [[2]], [[]], [[]], [[5, 5]], [[6], [6]]] ∧
+    HashCallExamples.manyState (runM {} HashCallExamples.cfgStrict Failover.prefRoute (init [0, 1] 0) 0 HashCallExamples.setCalls) =
+      ({ nodes := [1, 0], failed := [], dead := [], lastDeadCheck := 12 }, [(0, 2, true, 0), (1, 1, true, 0)]) :=
+  ⟨HashCallExamples.setCalls_wf, HashCallExamples.demo_set.1, HashCallExamples.demo_set.2.1, HashCallExamples.demo_set.2.2⟩
+
 /-- C01 (`HashClient` with `get_many`, sequences, broken connections): if what arrives on every server's connection
 during each call is fault-framed (`MOp.FaultFramed`: the owed reply, or a strict prefix of it cut at any byte by
 end-of-stream or an exception), then after every call no byte is readable, before a fault, from the pipe of any
@@ -1113,6 +1144,23 @@ theorem C01_hash_many_own_bytes_only_faults (ccfg : Cfg) (fcfg : Failover.Cfg) (
   rw [Nat.zero_add] at hidx
   have hown : ∀ te ∈ readable st.avail, te.1 = i ∨ te.2 = .eintr := fun te hte => hidx ▸ h.own te hte
   exact ⟨hidx, h.split, h.left, hown, fun ho te hte => hown te (h.taken ho te hte)⟩
+
+/-- the fault hypothesis is satisfiable with `set_many`: every well-framed history is fault-framed (so
+`HashCallExamples.setCalls` and `HashCallExamples.manyCalls` are), and in `HashCallExamples.cutCalls` the connection of
+server 1 breaks after `STOR` in the middle of a `set_many` reply (`MemcacheUnexpectedCloseError` escapes, the inner client
+closes its socket; the next `get_many` is served over a new connection and sees nothing of the cut reply) -/
+example :
+    (∀ mc ∈ HashCallExamples.setCalls, mc.op.FaultFramed {}) ∧
+    (∀ mc ∈ HashCallExamples.cutCalls, mc.op.FaultFramed {}) ∧
+    HashCallExamples.manySummary (runM {} HashCallExamples.cfgStrict Failover.prefRoute (init [0, 1] 0) 0 HashCallExamples.cutCalls) =
+      [(.raised 1 .unexpectedClose, [(0, some 0, true), (1, some 1, false)]),
+       (.value (.dict [(.bytes [107], [120])]), [(0, some 0, true), (1, some 1, true)])] ∧
+    HashCallExamples.manyTags (runM {} HashCallExamples.cfgStrict Failover.prefRoute (init [0, 1] 0) 0 HashCallExamples.cutCalls) =
+      [[[0], [0, 0]], [[1], [1]]] ∧
+    HashCallExamples.manyState (runM {} HashCallExamples.cfgStrict Failover.prefRoute (init [0, 1] 0) 0 HashCallExamples.cutCalls) =
+      ({ nodes := [0, 1], failed := [], dead := [], lastDeadCheck := 0 }, [(0, 0, true, 0), (1, 1, true, 0)]) :=
+  ⟨fun mc h => HashCallExamples.faultFramed_of_wellFramed_M {} mc.op (HashCallExamples.setCalls_wf mc h),
+    HashCallExamples.cutCalls_ff, HashCallExamples.demo_cut.1, HashCallExamples.demo_cut.2.1, HashCallExamples.demo_cut.2.2⟩
 
 /-- C01 (`HashClient`, sections 10 and 11 agree): on a history of single-key calls the general run `runM` is the run
 `runH` of section 10 — same final state, same results, same inner calls. -/
